@@ -17,6 +17,7 @@ def registry():
         'C16': rules_api.c16,
         'C17': rules_api.c17,
         'C18': rules_api.c18,
+        'C13': rules_api.c13,
     }
     for modname in ('rules_fsm', 'rules_mem', 'rules_tab'):
         try:
